@@ -46,7 +46,10 @@ def gen(r, tier, i):
             'steps': list(range(ns)),
             'flow': {'s%d' % j: ['s%d' % k for k in range(j) if r.random() < 0.4] for j in range(ns)},
             'calls': [[r.choice([0.5, 1.0, 1.75, 2.5]), r.random() < 0.4] for _ in range(r.randint(1, 3))] + [[1.0, True]],
-            'perm_seeds': [r.randrange(10 ** 6) for _ in range(3)]}
+            'perm_seeds': [r.randrange(10 ** 6) for _ in range(3)],
+            # two more processes on a numpy-array variable: one accumulates into it, the other hands the
+            # array it was shown back as its update (the view must be a snapshot, not the live value)
+            'arrays': r.choice([None, None, r.choice([0.5, 1.0])])}
 
 
 def run_grammar(spec, V):
@@ -148,12 +151,38 @@ def run_perm(spec, V):
         def next_update(self, timestep, states):
             return {'T': {'d%d' % self.parameters['pid']: states['S']['acc'] * 2 + states['T']['sum2'], 'sum2': 1}}
 
+    import numpy as np
+
+    class Grow(Process):
+        def ports_schema(self):
+            return {'S': {'field': {'_default': np.array([0, 0]), '_emit': True}}}
+
+        def calculate_timestep(self, states):
+            return self.parameters['ts']
+
+        def next_update(self, timestep, states):
+            return {'S': {'field': np.array([1, 2])}}
+
+    class Follow(Process):
+        def ports_schema(self):
+            return {'S': {'field': {'_default': np.array([0, 0])}},
+                    'T': {'total': {'_default': np.array([0, 0]), '_emit': True}}}
+
+        def calculate_timestep(self, states):
+            return self.parameters['ts']
+
+        def next_update(self, timestep, states):
+            return {'T': {'total': states['S']['field']}}
+
     def once(perm_seed):
         r = random.Random(perm_seed) if perm_seed is not None else None
         procs = {k: A({'pid': int(k[1:]), 'ts': ts, 'flip': bool(r and r.random() < 0.5)}) for k, ts in spec['procs'].items()}
+        if spec.get('arrays'):
+            procs['grow'] = Grow({'ts': spec['arrays']})
+            procs['follow'] = Follow({'ts': spec['arrays']})
         steps = {'s%d' % j: St({'pid': j}) for j in spec['steps']}
         flow = {k: [(d,) for d in deps] for k, deps in spec['flow'].items()}
-        topo = {k: {'S': ('s',), 'T': ('t',)} for k in list(procs) + list(steps)}
+        topo = {k: ({'S': ('s',)} if k == 'grow' else {'S': ('s',), 'T': ('t',)}) for k in list(procs) + list(steps)}
         init = {'s': {'acc': 3}, 't': {'sum2': 1}}
         if r is not None:
             procs, steps, flow, topo, init = (shuffled(x, r) for x in (procs, steps, flow, topo, init))
